@@ -5,6 +5,7 @@ package main
 import (
 	"fmt"
 	"go/types"
+	"sort"
 	"strings"
 )
 
@@ -90,6 +91,9 @@ func (c *EvalCtx) sortOfVal(v Val) string {
 }
 
 func (c *EvalCtx) asBool(v Val) string {
+	if v.Undef {
+		return c.x.e.fresh("undef", "Bool")
+	}
 	if v.K != KScalar || c.sortOfVal(v) != "Bool" {
 		c.fail("boolean expected, got %v", v.T)
 	}
@@ -129,12 +133,15 @@ func (c *EvalCtx) resolveType(ty string) types.Type {
 		q := ty[:i]
 		name = ty[i+1:]
 		pkgPath = ""
-		// match by package name or full path
-		for path, p := range e.pkgs {
-			if path == q || p.Pkg.Name() == q {
-				if p.Pkg.Scope().Lookup(name) != nil {
-					pkgPath = path
-					break
+		// match by full path, else by package name (deterministically: shortest, then lexicographic path)
+		if p, ok := e.pkgs[q]; ok && p.Pkg.Scope().Lookup(name) != nil {
+			pkgPath = q
+		} else {
+			for path, p := range e.pkgs {
+				if p.Pkg.Name() == q && p.Pkg.Scope().Lookup(name) != nil {
+					if pkgPath == "" || len(path) < len(pkgPath) || (len(path) == len(pkgPath) && path < pkgPath) {
+						pkgPath = path
+					}
 				}
 			}
 		}
@@ -370,6 +377,9 @@ func toReal(t string) string {
 }
 
 func (c *EvalCtx) valEq(l, r Val) string {
+	if l.Undef || r.Undef {
+		return c.x.e.fresh("undef", "Bool")
+	}
 	isNil := func(v Val) bool { return v.K == KScalar && v.T == types.Typ[types.UntypedNil] }
 	if isNil(r) {
 		l, r = r, l
@@ -419,6 +429,9 @@ func (c *EvalCtx) valEq(l, r Val) string {
 func (c *EvalCtx) evalSel(e *ESel) Val {
 	eng := c.x.e
 	x := c.eval(e.X)
+	if x.Undef {
+		return x
+	}
 	if x.K == KStruct {
 		st := x.T.Underlying().(*types.Struct)
 		for i := 0; i < st.NumFields(); i++ {
@@ -592,7 +605,7 @@ func (c *EvalCtx) evalCall(e *ECall) Val {
 				n++
 			}
 		}
-		c.fail("%s: no call #%d of %s on this path", e.Fn, k, key)
+		return Val{K: KScalar, S: eng.fresh("undef", "Int"), Sort: "Int", Undef: true}
 	case "before":
 		// before(a, b): every call of a precedes every call of b on this path
 		ka, kb := callKeyOf(e.Args[0]), callKeyOf(e.Args[1])
@@ -661,6 +674,46 @@ func (c *EvalCtx) evalCall(e *ECall) Val {
 			c.fail("backing() needs a slice")
 		}
 		return intVal(v.S)
+	case "implements":
+		v := c.eval(e.Args[0])
+		if v.K != KIface {
+			c.fail("implements needs an interface value")
+		}
+		t := c.resolveType(strings.Trim(e.Args[1].String(), `"`))
+		if t == nil {
+			c.fail("implements: unknown interface %s", e.Args[1].String())
+		}
+		fn := implFun(t)
+		eng.ufun(fn, "(Int) Bool")
+		return boolVal("(" + fn + " " + v.Tag + ")")
+	case "global":
+		// global("pkg.Name"): a package-level variable of any loaded package
+		name := strings.Trim(e.Args[0].String(), `"`)
+		i := strings.LastIndex(name, ".")
+		if i < 0 {
+			c.fail("global(\"pkg.Name\")")
+		}
+		var paths []string
+		if _, ok := eng.pkgs[name[:i]]; ok {
+			paths = append(paths, name[:i])
+		} else {
+			for path, p := range eng.pkgs {
+				if p.Pkg.Name() == name[:i] {
+					paths = append(paths, path)
+				}
+			}
+			sort.Strings(paths)
+		}
+		for _, path := range paths {
+			p := eng.pkgs[path]
+			{
+				if gv := p.Var(name[i+1:]); gv != nil {
+					a := &Addr{Kind: AGlobal, Cell: "G:" + path + "." + name[i+1:], ET: gv.Type().(*types.Pointer).Elem(), Label: name[i+1:]}
+					return c.x.load(c.p, c.snap(), a)
+				}
+			}
+		}
+		c.fail("global: %s not found", name)
 	case "tagof":
 		v := c.eval(e.Args[0])
 		if v.K != KIface {
